@@ -115,7 +115,10 @@ def run(res):
         "rule": "each case = one request sequence run on the real MemoryKVVStore, RedbKVVStore (temp dir, reopen = drop + "
                 "open), CloudKVVStore<MemoryKVVStore> and CloudKVVStore<RedbKVVStore> (reopen = signer restart), every answer and the full get_prefix(\"\") dump after every "
                 "request compared with the model, plus get_version of all keys on redb and get of all keys inside a cloud "
-                "transaction. corpus: past disagreements and the witnesses of Props/C16.v; exhaustive: breadth-first from "
+                "transaction. corpus: past disagreements and the witnesses of Props/C16.v; exhaustive-small: every sequence up to "
+                "the length in exhaustive_scope over 25 requests on keys a, b (versions 0..2, values x, y, batches with a "
+                "repeated key, three put_batch_unlogged lists with tombstones, reopen, enter, prepare, commit), no cap; "
+                "exhaustive-large: breadth-first from "
                 "3 roots over an alphabet of put/delete/put_with_version (keys a, a/b, b; versions 0..3; values x, y, "
                 "empty), put_batch pairs and triples with repeated keys, reads, prefixes, reopen, enter, prepare, commit, "
                 "states de-duplicated on everything visible, every (state, request) pair run (one case per state: common "
